@@ -14,7 +14,8 @@ import time
 VERIF = os.path.dirname(os.path.abspath(__file__))
 REPO = os.environ.get("VERIF_REPO", "/repo")
 CACHE = os.path.join(VERIF, ".cache")
-OUT = os.path.join(VERIF, "out")
+OUT = os.environ.get("VERIF_OUT", os.path.join(VERIF, "out"))
+EVIDENCE = os.environ.get("VERIF_EVIDENCE", os.path.join(VERIF, "evidence"))
 SPEC = os.path.join(VERIF, "spec")
 HARNESS = os.path.join(VERIF, "harness")
 NCPU = min(16, os.cpu_count() or 4)
@@ -184,6 +185,31 @@ def build_win(repo=None):
     if r.returncode != 0:
         shutil.rmtree(tmp, ignore_errors=True)
         raise Infra("windows sources do not compile against the stub header:\n" + r.stderr[-3000:])
+    shutil.rmtree(d, ignore_errors=True)
+    os.rename(tmp, d)
+    return exe
+
+
+def build_thr(repo=None):
+    """C20: real-thread harness built with ThreadSanitizer from the working tree."""
+    repo = repo or REPO
+    srcs = lib_sources(repo)
+    hdrs = glob.glob(os.path.join(repo, "reproc/src/*.h")) + glob.glob(os.path.join(repo, "reproc/include/reproc/*.h"))
+    hsrc = [os.path.join(HARNESS, "thr/thrtest.c")]
+    key = tree_hash(srcs + hdrs + hsrc, "thr")
+    d = os.path.join(CACHE, key)
+    exe = os.path.join(d, "thrtest")
+    if os.path.exists(exe):
+        return exe
+    tmp = d + ".tmp%d" % os.getpid()
+    shutil.rmtree(tmp, ignore_errors=True)
+    os.makedirs(tmp)
+    r = subprocess.run(["gcc", "-std=gnu99", "-O1", "-g", "-fsanitize=thread", "-DNDEBUG", "-DREPROC_MULTITHREADED", "-w",
+                        "-I" + os.path.join(repo, "reproc/include"), "-I" + os.path.join(repo, "reproc/src")] + hsrc + srcs +
+                       ["-lpthread", "-o", os.path.join(tmp, "thrtest")], capture_output=True, text=True)
+    if r.returncode != 0:
+        shutil.rmtree(tmp, ignore_errors=True)
+        raise Infra("thread harness does not compile:\n" + r.stderr[-3000:])
     shutil.rmtree(d, ignore_errors=True)
     os.rename(tmp, d)
     return exe
